@@ -208,10 +208,14 @@ def deep_clone(v):
         return Agg([deep_clone(x) for x in v.f], v.ty)
     if isinstance(v, Enum):
         return Enum(v.ty, v.discr, v.vname, [deep_clone(x) for x in v.f])
+    if isinstance(v, Blob):
+        return v          # encoded bytes are immutable
     if isinstance(v, RVec):
         return RVec([deep_clone(x) for x in v.items])
     if isinstance(v, RMap):
         return RMap(v.kind, v.is_set, [[deep_clone(k), deep_clone(x)] for k, x in v.entries])
+    if isinstance(v, SymString):
+        return v
     if isinstance(v, RString):
         return RString(v.s)
     if isinstance(v, Closure):
@@ -261,6 +265,8 @@ def val_eq(a, b):
         if len(a.items) != len(b.items):
             return False
         return b_and(*[val_eq(x, y) for x, y in zip(a.items, b.items)])
+    if isinstance(a, SymString) and isinstance(b, SymString):
+        return a.bv == b.bv
     if isinstance(a, RString) or isinstance(b, RString):
         sa = a.s if isinstance(a, RString) else a
         sb = b.s if isinstance(b, RString) else b
